@@ -682,4 +682,715 @@ Proof.
     apply run_begun_inv; auto. left. exact Hak.
 Qed.
 
+
+(* ---- a packet processed while input is not paused ---- *)
+Definition Idle (D : list bytes) (s : st) : Prop :=
+  dead s = false /\ paused s = false /\ ak_ok s /\
+  (conts s = [] \/ exists t k, conts s = [(t, k)] /\ auth_ok D s k) /\
+  inq s = [] /\ auth_obj_ok D s /\ done_ok D s.
+
+Lemma idle_inv D s : Idle D s -> Inv D s.
+Proof.
+  intros (Hd & Hp & Hak & Hc & Hq & Ha & Hdn). split; auto.
+  - right. split; [exact Hd|]. destruct Hc as [Hc|(t & k & Hc & Hk)].
+    + apply ShIdle0; auto.
+    + eapply ShIdle1; eauto.
+  - rewrite Hq. constructor.
+Qed.
+
+Lemma inv_idle D s : Inv D s -> dead s = false -> paused s = false -> Idle D s.
+Proof.
+  intros [Hs Hq Hq0 Ha Hd] Hdd Hp. destruct Hs as [(H1 & _)|[_ Hs]]; [congruence|].
+  unfold Idle. destruct Hs; try congruence.
+  - repeat (split; auto).
+  - repeat (split; auto). right. eauto.
+Qed.
+
+Lemma cancel_auth_idle D s :
+  Idle D s -> conts (cancel_auth s) = [].
+Proof.
+  intros (Hd & Hp & Hak & Hc & Hq & Ha & Hdn). unfold cancel_auth.
+  destruct Hc as [Hc|(t & k & Hc & (a & H1 & H2 & _))].
+  - destruct (auth s); cbn; rewrite Hc; reflexivity.
+  - rewrite H1. cbn. rewrite Hc. cbn. unfold owned. cbn. rewrite H2, Z.eqb_refl. reflexivity.
+Qed.
+
+Lemma cancel_aid_idle D s a :
+  Idle D s -> auth s = Some a -> conts (cancel_aid (a_id a) s) = [].
+Proof.
+  intros HI Hau. pose proof (cancel_auth_idle D s HI) as H. unfold cancel_auth in H. rewrite Hau in H. exact H.
+Qed.
+
+Lemma proc_request_inv D s p :
+  Idle D s -> In p D -> Inv D (proc_request w true p s).
+Proof.
+  intros HI Hin. pose proof HI as (Hd & Hp & Hak & Hc & Hq & Ha & Hdn).
+  pose proof (idle_inv D s HI) as HInv.
+  unfold proc_request.
+  destruct (parse_head p) as [[[[ub svc] m] body]|] eqn:Hph; [|apply die_inv; exact HInv].
+  destruct (1024 <=? blen ub) eqn:Hlen; [apply die_inv; exact HInv|].
+  destruct (zlist_eqb svc S_CONN) eqn:Hsvc; cbn [negb]; [|apply die_inv; exact HInv].
+  destruct (prep w ub) as [u|] eqn:Hprep; [|apply die_inv; exact HInv].
+  destruct (complete s) eqn:Hco.
+  { destruct (final s); [apply die_inv; exact HInv|exact HInv]. }
+  destruct (done_ok_false D s Hco Hdn) as [Hcs Hca].
+  set (ba := negb (zlist_eqb u (username s))).
+  set (s1 := if ba then set_username u s else s).
+  assert (Hu1 : username s1 = u).
+  { unfold s1, ba. destruct (zlist_eqb u (username s)) eqn:E; cbn; [|reflexivity].
+    symmetry. apply zlist_eqb_true. exact E. }
+  assert (Hc1 : conts (cancel_auth s1) = []).
+  { unfold s1. destruct ba; [|eapply cancel_auth_idle; eauto].
+    pose proof (cancel_auth_idle D s HI) as H. unfold cancel_auth in *. cbn. destruct (auth s); cbn in *; exact H. }
+  assert (Hf1 : username (cancel_auth s1) = u /\ dead (cancel_auth s1) = false /\ complete (cancel_auth s1) = false /\
+                inq (cancel_auth s1) = [] /\ out (cancel_auth s1) = out s /\ completed_as (cancel_auth s1) = completed_as s /\
+                ak_user (cancel_auth s1) = ak_user s).
+  { unfold cancel_auth, cancel_aid. destruct (auth s1); cbn; rewrite ?Hu1; unfold s1; destruct ba; cbn; auto 10. }
+  destruct Hf1 as (F1 & F2 & F3 & F4 & F5 & F6 & F7).
+  split.
+  - right. split; [cbn; exact F2|].
+    eapply ShFin with (t := None) (k := KFin ba (kind_of m) p body); cbn; auto.
+    + split; reflexivity.
+    + rewrite Hc1. reflexivity.
+    + split; [exact Hin|]. split.
+      * rewrite F1. exists ub, svc, m. split; [exact Hph|]. split; [|auto].
+        apply Z.ltb_lt. apply Z.leb_gt in Hlen. exact Hlen.
+      * intros Hba. unfold ak_ok in *. cbn. rewrite F1, F7.
+        unfold ba in Hba. apply Bool.negb_false_iff in Hba. apply zlist_eqb_true in Hba. rewrite Hba. exact Hak.
+  - cbn. rewrite F4. constructor.
+  - cbn. discriminate.
+  - unfold auth_obj_ok. cbn. exact I.
+  - unfold done_ok. cbn. rewrite F3, F5, F6. auto.
+Qed.
+
+Lemma info_response_inv D s a r :
+  Idle D s -> auth s = Some a -> a_kbd a = true -> In (61 :: r) D -> Inv D (info_response w a r s).
+Proof.
+  intros HI Hau Hkb Hin. pose proof HI as (Hd & Hp & Hak & Hc & Hq & Ha & Hdn).
+  pose proof (idle_inv D s HI) as HInv.
+  unfold info_response.
+  destruct (get_u32 r) as [[n r1]|] eqn:Hn; [|apply die_inv; exact HInv].
+  destruct (get_nstrings (S (length r1)) n r1) as [[rs [|x rest]]|] eqn:Hg; try (apply die_inv; exact HInv).
+  destruct (forallb (utf8 w) rs) eqn:Hf; [|apply die_inv; exact HInv].
+  pose proof (cancel_aid_idle D s a HI Hau) as Hc0.
+  unfold auth_obj_ok in Ha. rewrite Hau in Ha. destruct Ha as (Ha1 & Ha2 & Ha3). destruct (Ha3 Hkb) as [Hreq Hor].
+  split.
+  - right. split; [cbn; exact Hd|].
+    eapply ShIdle1 with (t := None) (k := KKbdValidate (a_id a) (a_user a) rs); cbn; auto.
+    + cbn in Hc0. rewrite Hc0. reflexivity.
+    + exists a. cbn. split; [exact Hau|]. split; [reflexivity|]. split; [exact Ha1|]. split; [exact Hor|].
+      split; [exact Ha2|]. split; [exact Ha1|]. split; [exact Hkb|].
+      exists (61 :: r). split; [exact Hin|]. exists r, n, r1. auto.
+  - cbn. rewrite Hq. constructor.
+  - cbn. intros _. exact Hq.
+  - unfold auth_obj_ok. cbn. rewrite Hau. auto.
+  - eapply done_ok_core; [| | | | | | |exact Hdn]; reflexivity.
+Qed.
+
+Lemma deliver1_inv D s p :
+  Idle D s -> In p D -> Inv D (deliver1 w true p s).
+Proof.
+  intros HI Hin. pose proof HI as (Hd & Hp & Hak & Hc & Hq & Ha & Hdn).
+  pose proof (idle_inv D s HI) as HInv.
+  unfold deliver1. destruct p as [|t r]; [apply die_inv; exact HInv|].
+  destruct (t =? 50); [apply proc_request_inv; assumption|].
+  destruct (t =? 2).
+  { destruct (get_string r) as [[x [|y l]]|]; try (apply die_inv; exact HInv). exact HInv. }
+  destruct ((60 <=? t) && (t <=? 79)).
+  { destruct (auth s) as [a|] eqn:Hau; [|apply die_inv; exact HInv].
+    destruct (a_kbd a && (t =? 61)) eqn:Hk.
+    - apply andb_true_iff in Hk as [Hk1 Hk2]. apply Z.eqb_eq in Hk2. subst t.
+      apply info_response_inv; assumption.
+    - eapply Inv_same_core; [|exact HInv]. unfold same_core, emit. cbn. repeat split; reflexivity. }
+  destruct (80 <=? t); [|apply die_inv; exact HInv].
+  destruct (complete s); [|apply die_inv; exact HInv].
+  eapply Inv_same_core; [|exact HInv]. unfold same_core, emit. cbn. repeat split; reflexivity.
+Qed.
+
+Lemma Inv_set_inq D s q :
+  Inv D s -> paused s = true -> Forall (fun p => In p D) q -> Inv D (set_inq q s).
+Proof.
+  intros [Hs Hq Hq0 Ha Hd] Hp Hf. split.
+  - destruct Hs as [(H1 & H2 & H3 & H4)|[Hl Hs]]; [congruence|].
+    right. split; [exact Hl|]. destruct Hs; try congruence.
+    + eapply ShFin; eauto.
+    + apply ShRes0; auto.
+    + eapply ShRes1; eauto.
+    + eapply ShRes2; eauto.
+  - cbn. exact Hf.
+  - cbn. rewrite Hp. discriminate.
+  - eapply auth_obj_ok_core; [| | | | |exact Ha]; reflexivity.
+  - eapply done_ok_core; [| | | | | | |exact Hd]; reflexivity.
+Qed.
+
+Lemma drain_inv D q : forall s,
+  Idle D s -> Forall (fun p => In p D) q -> Inv D (drain w true q s).
+Proof.
+  induction q as [|p q IH]; intros s HI Hf; cbn [drain].
+  - apply idle_inv. exact HI.
+  - inversion Hf as [|? ? Hp Hq]; subst.
+    pose proof (deliver1_inv D s p HI Hp) as HInv.
+    destruct (dead (deliver1 w true p s)) eqn:Hdd; [exact HInv|].
+    destruct (paused (deliver1 w true p s)) eqn:Hpp.
+    + apply Inv_set_inq; assumption.
+    + apply IH; [|exact Hq]. apply inv_idle; assumption.
+Qed.
+
+
+Lemma run_resume_inv D s :
+  dead s = false -> paused s = true -> ak_ok s ->
+  (conts s = [] \/ exists t k, conts s = [(t, k)] /\ auth_ok D s k) ->
+  Forall (fun p => In p D) (inq s) -> auth_obj_ok D s -> done_ok D s ->
+  Inv D (run_kont w sid true KResume s).
+Proof.
+  intros Hd Hp Hak Hc Hq Ha Hdn. cbn [run_kont]. apply drain_inv; [|exact Hq].
+  unfold Idle. cbn. split; [exact Hd|]. split; [reflexivity|]. split; [exact Hak|].
+  split; [|split; [reflexivity|split]].
+  - destruct Hc as [Hc|(t & k & Hc & Hk)]; [left; exact Hc|right]. exists t, k. split; [exact Hc|].
+    eapply auth_ok_core; [| | | | | |exact Hk]; reflexivity.
+  - eapply auth_obj_ok_core; [| | | | |exact Ha]; reflexivity.
+  - eapply done_ok_core; [| | | | | | |exact Hdn]; reflexivity.
+Qed.
+
+(* replacing the continuation list by another one of an allowed shape *)
+Lemma Inv_set_conts D s c :
+  Inv D s -> dead s = false -> live_shape D (set_conts c s) -> Inv D (set_conts c s).
+Proof.
+  intros [Hs Hq Hq0 Ha Hd] Hdd Hl. split.
+  - right. split; [exact Hdd|exact Hl].
+  - exact Hq.
+  - exact Hq0.
+  - eapply auth_obj_ok_core; [| | | | |exact Ha]; reflexivity.
+  - eapply done_ok_core; [| | | | | | |exact Hd]; reflexivity.
+Qed.
+
+Lemma inv_base D s c r :
+  Inv D s -> dead s = false -> paused s = r -> ak_ok s ->
+  c = (if r then [(None, KResume)] else []) -> Base D (set_conts c s) r.
+Proof.
+  intros [Hs Hq Hq0 Ha Hd] Hdd Hp Hak Hc. base_split; cbn; auto; try (intros Hr; apply Hq0; congruence).
+Qed.
+
+Lemma inv_finbase D s :
+  Inv D s -> dead s = false -> paused s = true -> auth s = None -> complete s = false -> opts_reset s ->
+  FinBase D (set_conts [] s).
+Proof.
+  intros [Hs Hq Hq0 Ha Hd] Hdd Hp Hau Hco Hor. unfold FinBase. cbn. repeat (split; [assumption|]).
+  split; [reflexivity|]. split; [exact Hq|].
+  eapply done_ok_core; [| | | | | | |exact Hd]; reflexivity.
+Qed.
+
+Lemma complete_inv D s fid : Inv D s -> Inv D (step w sid true s (Complete fid)).
+Proof.
+  intros HInv. unfold step. destruct (dead s) eqn:Hdd; [exact HInv|].
+  pose proof HInv as [Hs Hq Hq0 Ha Hd]. destruct Hs as [(H1 & _)|[_ Hs]]; [congruence|].
+  destruct Hs as [Hp Hak Hc|t k Hp Hak Hc Hk|t k Hp Hau Hco Hor Hc Hk|Hp Hak Hc|t k Hp Hak Hc Hk|t k Hp Hak Hc Hk];
+    rewrite Hc; cbn [extract].
+  - exact HInv.
+  - destruct t as [f|]; [|exact HInv]. destruct (f =? fid); [|exact HInv]. cbn [app].
+    apply Inv_set_conts; auto.
+    eapply ShIdle1 with (t := None) (k := k); [exact Hp|exact Hak|reflexivity|].
+    eapply auth_ok_core; [| | | | | |exact Hk]; reflexivity.
+  - destruct t as [f|]; [|exact HInv]. destruct (f =? fid); [|exact HInv]. cbn [app].
+    apply Inv_set_conts; auto.
+    eapply ShFin with (t := None) (k := k); [exact Hp|exact Hau|exact Hco|exact Hor|reflexivity|].
+    eapply fin_ok_core; [| |exact Hk]; reflexivity.
+  - exact HInv.
+  - destruct t as [f|]; [|exact HInv]. destruct (f =? fid); [|exact HInv]. cbn [app].
+    apply Inv_set_conts; auto.
+    eapply ShRes2 with (t := None) (k := k); [exact Hp|exact Hak|reflexivity|].
+    eapply auth_ok_core; [| | | | | |exact Hk]; reflexivity.
+  - destruct t as [f|]; [|exact HInv]. destruct (f =? fid); [|exact HInv]. cbn [app].
+    apply Inv_set_conts; auto.
+    eapply ShRes2 with (t := None) (k := k); [exact Hp|exact Hak|reflexivity|].
+    eapply auth_ok_core; [| | | | | |exact Hk]; reflexivity.
+Qed.
+
+Lemma run_inv D s i : Inv D s -> Inv D (step w sid true s (Run i)).
+Proof.
+  intros HInv. unfold step. destruct (dead s) eqn:Hdd; [exact HInv|].
+  pose proof HInv as [Hs Hq Hq0 Ha Hd]. destruct Hs as [(H1 & _)|[_ Hs]]; [congruence|].
+  assert (Hobj : forall c, auth_obj_ok D (set_conts c s)).
+  { intros c. eapply auth_obj_ok_core; [| | | | |exact Ha]; reflexivity. }
+  assert (Hdone : forall c, done_ok D (set_conts c s)).
+  { intros c. eapply done_ok_core; [| | | | | | |exact Hd]; reflexivity. }
+  assert (Hauth : forall c k, auth_ok D s k -> auth_ok D (set_conts c s) k).
+  { intros c k Hk. eapply auth_ok_core; [| | | | | |exact Hk]; reflexivity. }
+  destruct Hs as [Hp Hak Hc|t k Hp Hak Hc Hk|t k Hp Hau Hco Hor Hc Hk|Hp Hak Hc|t k Hp Hak Hc Hk|t k Hp Hak Hc Hk];
+    rewrite Hc.
+  - destruct i; exact HInv.
+  - destruct i as [|i]; [|destruct i; exact HInv]. cbn [nth_error remove_nth].
+    destruct t; [exact HInv|].
+    eapply run_authcont_inv with (r := false); [eapply inv_base; eauto|apply Hauth; exact Hk].
+  - destruct i as [|i]; [|destruct i; exact HInv]. cbn [nth_error remove_nth].
+    destruct t; [exact HInv|].
+    eapply run_fin_inv; [eapply inv_finbase; eauto|].
+    eapply fin_ok_core; [| |exact Hk]; reflexivity.
+  - destruct i as [|i]; [|destruct i; exact HInv]. cbn [nth_error remove_nth].
+    apply run_resume_inv; [exact Hdd|exact Hp|exact Hak|left; reflexivity|exact Hq|apply Hobj|apply Hdone].
+  - destruct i as [|[|i]]; cbn [nth_error remove_nth].
+    + destruct t; [exact HInv|].
+      eapply run_authcont_inv with (r := true); [eapply inv_base; eauto|apply Hauth; exact Hk].
+    + apply run_resume_inv; [exact Hdd|exact Hp|exact Hak| |exact Hq|apply Hobj|apply Hdone].
+      right. exists t, k. split; [reflexivity|apply Hauth; exact Hk].
+    + destruct i; exact HInv.
+  - destruct i as [|[|i]]; cbn [nth_error remove_nth].
+    + apply run_resume_inv; [exact Hdd|exact Hp|exact Hak| |exact Hq|apply Hobj|apply Hdone].
+      right. exists t, k. split; [reflexivity|apply Hauth; exact Hk].
+    + destruct t; [exact HInv|].
+      eapply run_authcont_inv with (r := true); [eapply inv_base; eauto|apply Hauth; exact Hk].
+    + destruct i; exact HInv.
+Qed.
+
+Lemma deliver_inv D s p : Inv D s -> Inv (p :: D) (step w sid true s (Deliver p)).
+Proof.
+  intros HInv0. assert (HInv : Inv (p :: D) s) by (eapply Inv_mono; [|exact HInv0]; apply incl_tl, incl_refl).
+  unfold step. destruct (dead s) eqn:Hdd; [exact HInv|].
+  destruct (paused s) eqn:Hp.
+  - apply Inv_set_inq; [exact HInv|exact Hp|]. apply Forall_app. split; [apply HInv|].
+    constructor; [left; reflexivity|constructor].
+  - apply deliver1_inv; [|left; reflexivity]. apply inv_idle; assumption.
+Qed.
+
+Definition evD (e : ev) (D : list bytes) : list bytes := match e with Deliver p => p :: D | _ => D end.
+
+Lemma step_inv D s e : Inv D s -> Inv (evD e D) (step w sid true s e).
+Proof.
+  intros H. destruct e; cbn [evD].
+  - apply deliver_inv. exact H.
+  - apply complete_inv. exact H.
+  - apply run_inv. exact H.
+Qed.
+
+Lemma init_inv : Inv [] init.
+Proof.
+  apply idle_inv. unfold Idle, init. cbn. repeat split; auto.
+  - right. split; reflexivity.
+Qed.
+
+Lemma run_inv_all evs : forall D s, Inv D s -> Inv (fold_left (fun d e => evD e d) evs D) (fold_left (step w sid true) evs s).
+Proof.
+  induction evs as [|e evs IH]; intros D s H; cbn [fold_left]; [exact H|].
+  apply IH. apply step_inv. exact H.
+Qed.
+
+Lemma evD_incl evs : forall D, incl D (payloads evs ++ D) -> True.
+Proof. auto. Qed.
+
+Lemma fold_evD_incl evs : forall D, incl (fold_left (fun d e => evD e d) evs D) (payloads evs ++ D).
+Proof.
+  induction evs as [|e evs IH]; intros D; cbn [fold_left payloads flat_map].
+  - apply incl_refl.
+  - intros x Hx. apply IH in Hx. apply in_app_iff in Hx as [Hx|Hx].
+    + apply in_app_iff. left. apply in_app_iff. right. exact Hx.
+    + destruct e; cbn [evD] in Hx; cbn [app].
+      * destruct Hx as [<-|Hx]; [left; reflexivity|right]. apply in_app_iff. right. exact Hx.
+      * apply in_app_iff. right. exact Hx.
+      * apply in_app_iff. right. exact Hx.
+Qed.
+
+Theorem fixed_invariant evs : exists D, incl D (payloads evs) /\ Inv D (run w sid true evs).
+Proof.
+  exists (fold_left (fun d e => evD e d) evs []). split.
+  - intros x Hx. apply fold_evD_incl in Hx. rewrite app_nil_r in Hx. exact Hx.
+  - unfold run. apply run_inv_all. apply init_inv.
+Qed.
+
+
+(* ---- consequences for the repaired variant --------------------------------------------------- *)
+Theorem sound_fixed evs :
+  let s := run w sid true evs in
+  complete s = true -> granted w sid (username s) (payloads evs) = true.
+Proof.
+  intros s Hc. destruct (fixed_invariant evs) as (D & Hi & [_ _ _ _ Hd]). fold s in Hd.
+  unfold done_ok in Hd. rewrite Hc in Hd. destruct Hd as (_ & (p & Hp & Hg) & _ & _).
+  apply granted_mono with (D := D); [exact Hi|].
+  unfold granted. apply existsb_exists. exists p. split; [exact Hp|].
+  destruct (grants_via w sid (username s) D p); [destruct Hg|reflexivity].
+Qed.
+
+Theorem restrictions_fixed evs :
+  let s := run w sid true evs in
+  complete s = true -> restrictions_justified w sid (username s) (payloads evs) s = true.
+Proof.
+  intros s Hc. destruct (fixed_invariant evs) as (D & Hi & [_ _ _ _ Hd]). fold s in Hd.
+  unfold done_ok in Hd. rewrite Hc in Hd. destruct Hd as (_ & (p & Hp & Hg) & _ & _).
+  unfold restrictions_justified. apply existsb_exists. exists p. split; [apply Hi; exact Hp|].
+  apply existsb_exists. exists (key_opts s, cert_opts s). split.
+  - eapply grants_via_mono; [exact Hi|exact Hg].
+  - apply restr_eqb_refl.
+Qed.
+
+Theorem once_fixed evs :
+  let s := run w sid true evs in
+  (count_success (out s) <= 1)%nat /\
+  (complete s = true -> count_success (out s) = 1%nat /\ completed_as s = [username s]) /\
+  (complete s = false -> count_success (out s) = 0%nat /\ completed_as s = []).
+Proof.
+  intros s. destruct (fixed_invariant evs) as (D & Hi & [_ _ _ _ Hd]). fold s in Hd.
+  unfold done_ok in Hd. destruct (complete s).
+  - destruct Hd as (_ & _ & H1 & H2). rewrite H1. repeat split; auto; discriminate.
+  - destruct Hd as (H1 & H2). rewrite H1. repeat split; auto; discriminate.
+Qed.
+
+(* after authentication completed nothing changes the identity or the restrictions *)
+Definition ident (s : st) := (username s, key_opts s, cert_opts s, complete s, completed_as s, auth s).
+
+Lemma deliver1_stable p s :
+  complete s = true -> auth s = None -> ident (deliver1 w true p s) = ident s.
+Proof.
+  intros Hc Ha. unfold deliver1, ident. destruct p as [|t r]; [cbn; rewrite Ha; reflexivity|].
+  destruct (t =? 50).
+  { unfold proc_request. destruct (parse_head (t :: r)) as [[[[ub svc] m] body]|]; [|cbn; rewrite Ha; reflexivity].
+    destruct (1024 <=? blen ub); [cbn; rewrite Ha; reflexivity|].
+    destruct (negb (zlist_eqb svc S_CONN)); [cbn; rewrite Ha; reflexivity|].
+    destruct (prep w ub); [|cbn; rewrite Ha; reflexivity].
+    rewrite Hc. destruct (final s); cbn; rewrite ?Ha, ?Hc; reflexivity. }
+  destruct (t =? 2).
+  { destruct (get_string r) as [[x [|y l]]|]; cbn; rewrite ?Ha; reflexivity. }
+  destruct ((60 <=? t) && (t <=? 79)).
+  { rewrite Ha. cbn. rewrite ?Ha. reflexivity. }
+  destruct (80 <=? t); [|cbn; rewrite ?Ha; reflexivity].
+  rewrite Hc. cbn. rewrite ?Ha, ?Hc. reflexivity.
+Qed.
+
+Lemma drain_stable q : forall s,
+  complete s = true -> auth s = None -> ident (drain w true q s) = ident s.
+Proof.
+  induction q as [|p q IH]; intros s Hc Ha; cbn [drain]; [reflexivity|].
+  pose proof (deliver1_stable p s Hc Ha) as H1.
+  destruct (dead (deliver1 w true p s)); [exact H1|].
+  destruct (paused (deliver1 w true p s)); [exact H1|].
+  unfold ident in H1. inversion H1 as [[E1 E2 E3 E4 E5 E6]].
+  rewrite IH; [exact H1|congruence|congruence].
+Qed.
+
+Lemma step_stable D s e :
+  Inv D s -> complete s = true -> ident (step w sid true s e) = ident s.
+Proof.
+  intros [Hs Hq Hq0 Ha Hd] Hc. unfold done_ok in Hd. rewrite Hc in Hd. destruct Hd as (Hau & _).
+  unfold step. destruct (dead s) eqn:Hdd; [reflexivity|].
+  destruct Hs as [(H1 & _)|[_ Hs]]; [congruence|].
+  assert (Hnoauth : forall k, auth_ok D s k -> False).
+  { intros k (a & _ & _ & _ & _ & Hco & _). congruence. }
+  destruct e as [p|fid|i].
+  - destruct (paused s); [reflexivity|]. apply deliver1_stable; assumption.
+  - destruct Hs as [Hp Hak Hcn|t k Hp Hak Hcn Hk|t k Hp Hau' Hco Hor Hcn Hk|Hp Hak Hcn|t k Hp Hak Hcn Hk|t k Hp Hak Hcn Hk];
+      try (exfalso; eapply Hnoauth; eassumption); try congruence; rewrite Hcn; reflexivity.
+  - destruct Hs as [Hp Hak Hcn|t k Hp Hak Hcn Hk|t k Hp Hau' Hco Hor Hcn Hk|Hp Hak Hcn|t k Hp Hak Hcn Hk|t k Hp Hak Hcn Hk];
+      try (exfalso; eapply Hnoauth; eassumption); try congruence; rewrite Hcn.
+    + destruct i; reflexivity.
+    + destruct i as [|i]; [|destruct i; reflexivity]. cbn [nth_error remove_nth run_kont].
+      rewrite drain_stable; cbn; auto.
+Qed.
+
+Lemma stable_from more : forall D s,
+  Inv D s -> complete s = true ->
+  let s' := fold_left (step w sid true) more s in
+  username s' = username s /\ key_opts s' = key_opts s /\ cert_opts s' = cert_opts s /\ complete s' = true /\
+  completed_as s' = completed_as s.
+Proof.
+  induction more as [|e more IH]; intros D s HInv Hc; cbn [fold_left].
+  - auto.
+  - pose proof (step_stable D s e HInv Hc) as Hst. unfold ident in Hst. inversion Hst as [[E1 E2 E3 E4 E5 E6]].
+    pose proof (step_inv D s e HInv) as HInv'.
+    assert (Hc' : complete (step w sid true s e) = true) by congruence.
+    destruct (IH _ _ HInv' Hc') as (A1 & A2 & A3 & A4 & A5).
+    repeat split; congruence.
+Qed.
+
+Theorem stable_fixed evs more :
+  let s := run w sid true evs in
+  complete s = true ->
+  let s' := run w sid true (evs ++ more) in
+  username s' = username s /\ key_opts s' = key_opts s /\ cert_opts s' = cert_opts s /\ complete s' = true /\
+  completed_as s' = completed_as s.
+Proof.
+  intros s Hc s'. unfold s', run. rewrite fold_left_app. fold (run w sid true evs). fold s.
+  destruct (fixed_invariant evs) as (D & _ & HInv). fold s in HInv.
+  exact (stable_from more D s HInv Hc).
+Qed.
+
 End WithWorld.
+
+(* ------------------------------------------------------------------------------------------- *)
+(* Part A: the gate, for both variants *)
+Section Gate.
+Variable w : world.
+Variable sid : bytes.
+Variable fixed : bool.
+
+(* either no connection-layer message was processed yet, or authentication is complete *)
+Definition P (s : st) : Prop := served s = 0 \/ complete s = true.
+
+Ltac pp := unfold P in *; cbn in *; first [assumption | tauto | (right; reflexivity)].
+
+Lemma P_die s : P s -> P (die s). Proof. intros; pp. Qed.
+Lemma P_emit r s : P s -> P (emit r s). Proof. intros; pp. Qed.
+Lemma P_spawn k s : P s -> P (spawn k s). Proof. intros; pp. Qed.
+Lemma P_block k s : P s -> P (block k s). Proof. intros; pp. Qed.
+Lemma P_do_failure s : P s -> P (do_failure w s). Proof. intros; pp. Qed.
+Lemma P_do_success s : P s -> P (do_success s). Proof. intros; pp. Qed.
+Lemma P_cancel_aid a s : P s -> P (cancel_aid a s). Proof. intros; pp. Qed.
+Lemma P_cancel_auth s : P s -> P (cancel_auth s).
+Proof. intros. unfold cancel_auth. destruct (auth s); [apply P_cancel_aid|]; assumption. Qed.
+Lemma P_fin_done s : P s -> P (fin_done fixed s).
+Proof. intros. unfold fin_done. destruct fixed; [apply P_spawn|]; assumption. Qed.
+
+Lemma P_apply_effect e s : P s -> P (apply_effect w e s).
+Proof.
+  intros H. unfold apply_effect.
+  destruct (e_ko e), (e_co e), (e_res e); pp.
+Qed.
+
+Lemma P_lookup k full body s : P s -> P (lookup w k full body s).
+Proof.
+  intros H. unfold lookup. apply P_cancel_auth in H.
+  destruct (supported w (ak_of w (ak_user (cancel_auth s))) k).
+  - apply P_spawn. pp.
+  - apply P_do_failure. exact H.
+Qed.
+
+Lemma P_run_auth aid u ce s : P s -> P (run_auth w aid u ce s).
+Proof. intros H. unfold run_auth. destruct (is_async w (fst ce)); [apply P_block|apply P_apply_effect]; exact H. Qed.
+
+Lemma P_run_begun asked k full body s : P s -> P (run_begun w fixed asked k full body s).
+Proof.
+  intros H. unfold run_begun. destruct (needs_auth w asked); apply P_fin_done.
+  - apply P_lookup. exact H.
+  - apply P_do_success. exact H.
+Qed.
+
+Lemma P_proc_request full s : P s -> P (proc_request w fixed full s).
+Proof.
+  intros H. unfold proc_request.
+  destruct (parse_head full) as [[[[ub svc] m] body]|]; [|apply P_die; exact H].
+  destruct (1024 <=? blen ub); [apply P_die; exact H|].
+  destruct (negb (zlist_eqb svc S_CONN)); [apply P_die; exact H|].
+  destruct (prep w ub); [|apply P_die; exact H].
+  destruct (complete s) eqn:Hc.
+  - destruct (final s); [apply P_die|]; exact H.
+  - apply P_spawn. destruct fixed.
+    + assert (H1 : P (if negb (zlist_eqb u (username s)) then set_username u s else s)).
+      { destruct (negb (zlist_eqb u (username s))); pp. }
+      apply P_cancel_auth in H1. pp.
+    + destruct (negb (zlist_eqb u (username s))); pp.
+Qed.
+
+Lemma P_info_response a r s : P s -> P (info_response w a r s).
+Proof.
+  intros H. unfold info_response.
+  destruct (get_u32 r) as [[n r1]|]; [|apply P_die; exact H].
+  destruct (get_nstrings (S (length r1)) n r1) as [[rs [|x l]]|]; try (apply P_die; exact H).
+  destruct (forallb (utf8 w) rs); [|apply P_die; exact H].
+  apply P_spawn. apply P_cancel_aid. exact H.
+Qed.
+
+Lemma P_deliver1 p s : P s -> P (deliver1 w fixed p s).
+Proof.
+  intros H. unfold deliver1. destruct p as [|t r]; [apply P_die; exact H|].
+  destruct (t =? 50); [apply P_proc_request; exact H|].
+  destruct (t =? 2). { destruct (get_string r) as [[x [|y l]]|]; try (apply P_die); exact H. }
+  destruct ((60 <=? t) && (t <=? 79)).
+  { destruct (auth s); [|apply P_die; exact H].
+    destruct (a_kbd a && (t =? 61)); [apply P_info_response|apply P_emit]; exact H. }
+  destruct (80 <=? t); [|apply P_die; exact H].
+  destruct (complete s) eqn:Hc; [|apply P_die; exact H].
+  unfold P. cbn. right. exact Hc.
+Qed.
+
+Lemma P_drain q : forall s, P s -> P (drain w fixed q s).
+Proof.
+  induction q as [|p q IH]; intros s H; cbn [drain]; [exact H|].
+  pose proof (P_deliver1 p s H) as H1.
+  destruct (dead (deliver1 w fixed p s)); [exact H1|].
+  destruct (paused (deliver1 w fixed p s)); [pp|apply IH; exact H1].
+Qed.
+
+Lemma P_run_kont k s : P s -> P (run_kont w sid fixed k s).
+Proof.
+  intros H. destruct k; cbn [run_kont].
+  - destruct ba; [apply P_block; exact H|apply P_fin_done, P_lookup; exact H].
+  - destruct (async_begin w); [apply P_block; pp|apply P_run_begun; pp].
+  - apply P_run_begun; exact H.
+  - apply P_run_auth; exact H.
+  - apply P_apply_effect; exact H.
+  - apply P_run_auth; exact H.
+  - apply P_drain. pp.
+Qed.
+
+Lemma P_step s e : P s -> P (step w sid fixed s e).
+Proof.
+  intros H. unfold step. destruct (dead s); [exact H|].
+  destruct e as [p|fid|i].
+  - destruct (paused s); [pp|apply P_deliver1; exact H].
+  - destruct (extract fid (conts s)) as [[k rest]|]; pp.
+  - destruct (nth_error (conts s) i) as [[[f|] k]|]; try exact H.
+    apply P_run_kont. pp.
+Qed.
+
+(* a channel open / global request (any message type > 79) is only ever processed on an authenticated
+   connection; before that it closes the connection *)
+Theorem gate evs : served (run w sid fixed evs) <> 0 -> complete (run w sid fixed evs) = true.
+Proof.
+  assert (H : P (run w sid fixed evs)).
+  { unfold run. assert (H0 : P init) by (left; reflexivity). revert H0. generalize init.
+    induction evs as [|e evs IH]; intros s H0; cbn [fold_left]; [exact H0|]. apply IH. apply P_step. exact H0. }
+  intros Hs. destruct H as [H|H]; [contradiction|exact H].
+Qed.
+
+Lemma deliver_unauth_dies s t r :
+  dead s = false -> paused s = false -> complete s = false -> 80 <= t ->
+  dead (step w sid fixed s (Deliver (t :: r))) = true.
+Proof.
+  intros Hd Hp Hc Ht. unfold step. rewrite Hd, Hp. unfold deliver1.
+  assert (E1 : (t =? 50) = false) by lia. assert (E2 : (t =? 2) = false) by lia.
+  assert (E3 : ((60 <=? t) && (t <=? 79)) = false) by lia. assert (E4 : (80 <=? t) = true) by lia.
+  rewrite E1, E2, E3, E4, Hc. reflexivity.
+Qed.
+
+Lemma dead_absorbing s e : dead s = true -> step w sid fixed s e = s.
+Proof. intros H. unfold step. rewrite H. reflexivity. Qed.
+
+End Gate.
+
+(* ------------------------------------------------------------------------------------------- *)
+(* Part C: the code as it is (fixed = false) violates the statements.  Witnesses by evaluation. *)
+Module Witness.
+
+Definition guest : user := [103;117;101;115;116].
+Definition root : user := [114;111;111;116].
+Definition alice : user := [97;108;105;99;101].
+Definition bob : user := [98;111;98].
+Definition the_sid : bytes := [1;2;3;4].
+
+Definition req_none (u : user) : bytes := 50 :: sstr u ++ sstr S_CONN ++ sstr S_NONE.
+Definition req_pw (u : user) (pw : bytes) : bytes := 50 :: sstr u ++ sstr S_CONN ++ sstr S_PASSWORD ++ [0] ++ sstr pw.
+Definition req_pk (u : user) (signed : bool) (blob sg : bytes) : bytes :=
+  50 :: sstr u ++ sstr S_CONN ++ sstr S_PUBLICKEY ++ [if signed then 1 else 0] ++ sstr [] ++ sstr blob ++
+  (if signed then sstr sg else []).
+
+(* an application in which nobody has any valid credential; guest needs no authentication *)
+Definition w_none (abegin apw : bool) : world :=
+  mkWorld (fun b => Some b) (fun _ => true) (fun u => negb (zlist_eqb u guest)) (fun _ => None)
+          (fun _ _ => PFalse) (fun _ _ _ => PFalse) (fun _ => KFalse) (fun _ _ => KFalse)
+          (fun _ _ => false) (fun _ _ => false) (fun _ => BBad) (fun _ _ _ => false) 0
+          true TNo false abegin apw false false false.
+
+(* 1. DESIGN 10-3: begin_auth is asynchronous; request for guest, then request for root while
+      begin_auth(guest) is pending; its result is applied to self._username = root *)
+Definition w1 := w_none true false.
+Definition evs1 : list ev :=
+  [Deliver (req_none guest); Run 0; Complete 0; Run 0; Deliver (req_none root); Complete 1; Run 1].
+
+Lemma sound_refuted_1 :
+  let s := run w1 the_sid false evs1 in
+  complete s = true /\ username s = root /\ completed_as s = [root] /\
+  granted w1 the_sid root (payloads evs1) = false.
+Proof. vm_compute. repeat split; reflexivity. Qed.
+
+Lemma fixed_resists_1 :
+  forall more, let s := run w1 the_sid true (evs1 ++ more) in complete s = true -> username s <> root.
+Proof.
+  intros more s Hc Hu. pose proof (sound_fixed w1 the_sid (evs1 ++ more) Hc) as Hg. fold s in Hg. rewrite Hu in Hg.
+  unfold granted in Hg. apply existsb_exists in Hg as (p & Hp & Hg).
+  assert (Hnil : grants_via w1 the_sid root (payloads (evs1 ++ more)) p = []).
+  { unfold grants_via. destruct (parse_head p) as [[[[ub svc] m] body]|]; [|reflexivity].
+    destruct ((blen ub <? 1024) && zlist_eqb svc S_CONN && opt_user_is (prep w1 ub) root); [|reflexivity].
+    cbv zeta. cbn [needs_auth w1 w_none]. cbn [zlist_eqb root guest Z.eqb Pos.eqb andb negb app].
+    cbn [is_nil root app]. rewrite app_nil_r.
+    unfold supported. cbn [ak_of w1 w_none pk_supported pk_cb_supported pw_supported kbd_on kbd_mode kbd_cfg].
+    destruct (kind_of m); try reflexivity.
+    cbn [auth_start]. unfold pw_start. cbn [prep w1 w_none pw_check pw_change].
+    destruct (get_bool body) as [[chg r1]|]; [|reflexivity].
+    destruct (get_string r1) as [[pw r2]|]; [|reflexivity].
+    destruct chg.
+    - destruct (get_string r2) as [[npw [|x l]]|]; reflexivity.
+    - destruct r2; reflexivity. }
+  rewrite Hnil in Hg. discriminate.
+Qed.
+
+(* 2. a synchronous application following the documented keyed-server pattern: begin_auth(u) installs
+      u's authorized keys.  alice owns key 1 and can sign anything with it; bob's keys do not contain it.
+      none(alice); then none(bob) and publickey(bob, key 1, signed) back to back: the second request of the
+      pair names the same user, skips begin_auth and overtakes the first, which waits in reload_config *)
+Definition w2 : world :=
+  mkWorld (fun b => Some b) (fun _ => true) (fun _ => true)
+          (fun src => match src with
+                      | Some u => if zlist_eqb u alice then Some [mkAe 1 false ko_empty true]
+                                  else if zlist_eqb u bob then Some [mkAe 2 false ko_empty true] else None
+                      | None => None end)
+          (fun _ _ => PFalse) (fun _ _ _ => PFalse) (fun _ => KFalse) (fun _ _ => KFalse)
+          (fun _ _ => false) (fun _ _ => false)
+          (fun b => if zlist_eqb b [7] then BKey 1 else BBad)
+          (fun k _ sg => (k =? 1) && zlist_eqb sg [9]) 0
+          true TNo false false false false false false.
+Definition evs2 : list ev :=
+  [Deliver (req_none alice); Run 0; Complete 0; Run 0;
+   Deliver (req_none bob); Deliver (req_pk bob true [7] [9]); Run 0; Run 0; Run 1].
+
+Lemma sound_refuted_2 :
+  let s := run w2 the_sid false evs2 in
+  complete s = true /\ username s = bob /\ begun s = [alice] /\
+  granted w2 the_sid bob (payloads evs2) = false.
+Proof. vm_compute. repeat split; reflexivity. Qed.
+
+(* 3. alice's password check is asynchronous and completes after the user name was switched to root *)
+Definition w3 : world :=
+  mkWorld (fun b => Some b) (fun _ => true) (fun _ => true) (fun _ => None)
+          (fun u p => if zlist_eqb u alice && zlist_eqb p [1] then PTrue else PFalse)
+          (fun _ _ _ => PFalse) (fun _ => KFalse) (fun _ _ => KFalse)
+          (fun _ _ => false) (fun _ _ => false) (fun _ => BBad) (fun _ _ _ => false) 0
+          true TNo false false true false false false.
+Definition evs3 : list ev :=
+  [Deliver (req_pw alice [1]); Run 0; Complete 0; Run 0; Run 0; Deliver (req_none root); Complete 1; Run 1].
+
+Lemma sound_refuted_3 :
+  let s := run w3 the_sid false evs3 in
+  complete s = true /\ username s = root /\ granted w3 the_sid root (payloads evs3) = false.
+Proof. vm_compute. repeat split; reflexivity. Qed.
+
+(* 4. once: a second USERAUTH_SUCCESS.  alice's password check is pending when guest (no authentication
+      needed) is admitted; the orphaned check then completes *)
+Definition w4 : world :=
+  mkWorld (fun b => Some b) (fun _ => true) (fun u => negb (zlist_eqb u guest)) (fun _ => None)
+          (fun u p => if zlist_eqb u alice && zlist_eqb p [1] then PTrue else PFalse)
+          (fun _ _ _ => PFalse) (fun _ => KFalse) (fun _ _ => KFalse)
+          (fun _ _ => false) (fun _ _ => false) (fun _ => BBad) (fun _ _ _ => false) 0
+          true TNo false false true false false false.
+Definition evs4 : list ev :=
+  [Deliver (req_pw alice [1]); Run 0; Complete 0; Run 0; Run 0; Deliver (req_none guest); Run 1; Complete 2; Run 1;
+   Complete 1; Run 0].
+
+Lemma once_refuted :
+  let s := run w4 the_sid false evs4 in
+  count_success (out s) = 2%nat /\ completed_as s = [guest; guest].
+Proof. vm_compute. split; reflexivity. Qed.
+
+(* 5. restrictions: a QUERY (no signature) with a certificate that carries force-command leaves
+      _cert_options set; a plain key with its own command= is accepted afterwards; the certificate's
+      forced command is the one enforced *)
+Definition c9 : cert := mkCert 4 10 true 0 100 [alice] (mkCo (Some [99]) true false) true.
+Definition k1opts : kopts := mkKo (Some [107]) false false [] [].
+Definition w5 : world :=
+  mkWorld (fun b => Some b) (fun _ => true) (fun _ => true)
+          (fun src => match src with
+                      | Some u => if zlist_eqb u alice then Some [mkAe 1 false k1opts true; mkAe 10 true ko_empty true] else None
+                      | None => None end)
+          (fun _ _ => PFalse) (fun _ _ _ => PFalse) (fun _ => KFalse) (fun _ _ => KFalse)
+          (fun _ _ => false) (fun _ _ => false)
+          (fun b => if zlist_eqb b [7] then BKey 1 else if zlist_eqb b [8] then BCert c9 else BBad)
+          (fun k _ sg => (k =? 1) && zlist_eqb sg [9]) 50
+          true TNo false false false false false false.
+Definition evs5 : list ev :=
+  [Deliver (req_pk alice false [8] []); Run 0; Complete 0; Run 0; Run 0;
+   Deliver (req_pk alice true [7] [9]); Run 0; Run 0].
+
+Lemma restrictions_refuted :
+  let s := run w5 the_sid false evs5 in
+  complete s = true /\ username s = alice /\ granted w5 the_sid alice (payloads evs5) = true /\
+  forced_command s = Some [99] /\
+  restrictions_justified w5 the_sid alice (payloads evs5) s = false.
+Proof. vm_compute. repeat split; reflexivity. Qed.
+
+End Witness.
